@@ -227,7 +227,10 @@ fn closed_length(t: &T) -> bool {
 fn bounded_mode(rel: Rel, a: &[T]) -> bool {
     match rel {
         Rel::Append => closed_length(&a[0]) || closed_length(&a[2]),
-        Rel::Member | Rel::Member1 => closed_length(&a[1]),
+        Rel::Member => closed_length(&a[1]),
+        // member1 stops at the first element equal to x: a ground x that occurs (syntactically)
+        // in the written prefix bounds the search even when the tail is open
+        Rel::Member1 => closed_length(&a[1]) || (a[0].is_ground() && a[1].list_parts().0.iter().any(|e| **e == a[0])),
         Rel::Rember => closed_length(&a[1]),
         Rel::Distinct | Rel::Empty => closed_length(&a[0]),
         Rel::ConsR | Rel::First | Rel::Rest => true,
